@@ -4,6 +4,7 @@ import (
 	"encoding/json"
 	"fmt"
 	"math"
+	"sync/atomic"
 
 	config "github.com/TheCacophonyProject/go-config"
 	"github.com/TheCacophonyProject/go-cptv/cptvframe"
@@ -116,7 +117,9 @@ func runC15(c c15Case) (string, string, int) {
 	conf := c.Cfg.motionConf()
 	d := motion.NewMotionDetector(conf, c.Cfg.Preview, c.Cfg.cam())
 	if _, _, ok := detState(d); !ok {
-		return "harness:deep-layer-unavailable", "detector fields background/tempThresh not found", 0
+		// the detector's private fields were renamed: decide on the API level alone (R3)
+		c15DeepLayer.Store(false)
+		return runC15APIOnly(c)
 	}
 	prevThr := c.Cfg.T
 	needSeed := true
@@ -206,6 +209,44 @@ func runC15(c c15Case) (string, string, int) {
 		}
 	}
 	return "", "", recomputed
+}
+
+var c15DeepLayer atomic.Bool
+
+func init() { c15DeepLayer.Store(true) }
+
+// runC15APIOnly: without access to the detector's private state, the background and threshold are
+// observed only where the API exposes them - the arguments of StartRecording (a processor with
+// min=max=0 starts a recording on every motion frame).
+func runC15APIOnly(c c15Case) (string, string, int) {
+	conf := c.Cfg.motionConf()
+	w, _ := window.New("12:00", "12:00", 0, 0)
+	rc := &recorder.RecorderConfig{MinSecs: 0, MaxSecs: 0, PreviewSecs: c.Cfg.Preview, Window: *w}
+	sk := &c15Sink{}
+	mp := motion.NewMotionProcessor(nil, &conf, rc, &config.Location{}, nil, sk, c.Cfg.cam(), nil, nil)
+	for i, f := range c.Frames {
+		if f.Reset {
+			mp.Reset(c.Cfg.cam())
+		}
+		sk.cur = i
+		mp.ProcessFrame(f.frame(c.Cfg, i+1))
+	}
+	seen := map[uint16]bool{c.Cfg.T: true}
+	for _, s := range sk.starts {
+		where := func() string {
+			return fmt.Sprintf("%+v stream %s: recording triggered at frame %d", c.Cfg, fmtStream(c.Frames[:s.frame+1]), s.frame+1)
+		}
+		if sig, msg := checkBackground(c.Cfg, s.bg, c.Frames[s.frame].Pix, false, where); sig != "" {
+			return sig, msg, len(sk.starts)
+		}
+		// (the threshold may have been recomputed on an earlier frame that started no recording, so without
+		// the deep layer only the configured bounds can be checked here)
+		if s.thr != c.Cfg.T && ((c.Cfg.TMin != 0 && s.thr < c.Cfg.TMin) || (c.Cfg.TMax != 0 && s.thr > c.Cfg.TMax)) {
+			return "C15:threshold:outside-configured-bounds", fmt.Sprintf("%s: stored threshold %d is outside [%d,%d]", where(), s.thr, c.Cfg.TMin, c.Cfg.TMax), len(sk.starts)
+		}
+		seen[s.thr] = true
+	}
+	return "", "", len(sk.starts)
 }
 
 func c15Replay(cj []byte) []ev.Violation {
@@ -324,4 +365,9 @@ func c15Run(r *ev.Run) {
 	})
 }
 
-func init() { register(&Check{Property: "C15", Run: c15Run, Replay: c15Replay}) }
+func init() {
+	register(&Check{Property: "C15", Run: func(r *ev.Run) {
+		c15Run(r)
+		r.Extra["deep_layer"] = c15DeepLayer.Load()
+	}, Replay: c15Replay})
+}
